@@ -99,3 +99,103 @@ h_ec_init_tables_base(void)
         ec_init_tables_base(k, rows, a, g_tbls);
         VCANARY();
 }
+
+/* ---- len <= 0 / rows <= 0: the contracts above need one ghost byte (len >= 1, rows >= 1) for
+ * __CPROVER_old; here the degenerate calls are checked directly (no loop contract, --unwind 1 with
+ * unwinding assertions = the loops do not iterate): every block has size 0, so any access fails */
+void
+h_gf_vect_mad_base_empty(void)
+{
+        int len, vec, vec_i;
+        HARNESS_ASSUME(len <= 0 && 0 <= vec_i && vec_i < vec && vec <= 255);
+        unsigned char *v = malloc((size_t) 32 * vec), *src = malloc(0), *dest = malloc(0);
+        HARNESS_ASSUME(v != NULL && src != NULL && dest != NULL);
+        gf_vect_mad_base(len, vec, vec_i, v, src, dest);
+        VCANARY();
+}
+
+void
+h_ec_encode_data_update_base_empty(void)
+{
+        int len, k, rows, vec_i;
+        HARNESS_ASSUME(rows <= EC_RMAX && 0 <= vec_i && vec_i < k && k <= 255 && (len <= 0 || rows <= 0));
+        unsigned char *v = malloc((size_t) 32 * k * (rows > 0 ? rows : 0)), *data = malloc(len > 0 ? len : 0);
+        HARNESS_ASSUME(v != NULL && data != NULL);
+        BUILD_DST(dst, scratch, rows, (len > 0 ? len : 0))
+        ec_encode_data_update_base(len, k, rows, vec_i, v, data, dst);
+        VCANARY();
+}
+
+/* ---- C13 lemmas over the proved contract of ec_encode_data_update_base (calls are replaced by the
+ * contract: frame havocked, postcondition assumed for the ghost byte) */
+#define LEMMA_SETUP                                                                                \
+        int len, k, rows;                                                                          \
+        HARNESS_ASSUME(1 <= len && 1 <= rows && rows <= EC_RMAX && 1 <= k && k <= 255);            \
+        HARNESS_ASSUME(EC_GHOST_IN(rows, len));                                                    \
+        unsigned char *v = malloc((size_t) 32 * k * rows);                                         \
+        HARNESS_ASSUME(v != NULL);
+
+/* an update applied twice restores the parity byte */
+void
+h_update_twice_restores(void)
+{
+        LEMMA_SETUP
+        int vec_i;
+        HARNESS_ASSUME(0 <= vec_i && vec_i < k);
+        unsigned char *data = malloc(len);
+        HARNESS_ASSUME(data != NULL);
+        BUILD_DST(dst, scratch, rows, len)
+        unsigned char before = dst[g_l][g_i];
+        ec_encode_data_update_base(len, k, rows, vec_i, v, data, dst);
+        ec_encode_data_update_base(len, k, rows, vec_i, v, data, dst);
+        __CPROVER_assert(dst[g_l][g_i] == before, "update applied twice cancels");
+        VCANARY();
+}
+
+/* two updates commute */
+void
+h_updates_commute(void)
+{
+        LEMMA_SETUP
+        int i1, i2;
+        HARNESS_ASSUME(0 <= i1 && i1 < k && 0 <= i2 && i2 < k);
+        unsigned char *d1 = malloc(len), *d2 = malloc(len);
+        HARNESS_ASSUME(d1 != NULL && d2 != NULL);
+        BUILD_DST(pa, scratch_a, rows, len)
+        BUILD_DST(pb, scratch_b, rows, len)
+        HARNESS_ASSUME(pa[g_l][g_i] == pb[g_l][g_i]);
+        ec_encode_data_update_base(len, k, rows, i1, v, d1, pa);
+        ec_encode_data_update_base(len, k, rows, i2, v, d2, pa);
+        ec_encode_data_update_base(len, k, rows, i2, v, d2, pb);
+        ec_encode_data_update_base(len, k, rows, i1, v, d1, pb);
+        __CPROVER_assert(pa[g_l][g_i] == pb[g_l][g_i], "updates commute");
+        VCANARY();
+}
+
+#define LEMMA_K 4 /* permutations of up to 4 sources (8 did not close in 15 min) */
+/* starting from a zero parity byte, the k updates (k <= LEMMA_K) applied in ANY order leave the value
+ * of the C03 fold: XOR over j < k of src[j][g_i] * coefficient(g_l, j) */
+void
+h_updates_any_order_equal_encode(void)
+{
+        LEMMA_SETUP
+        HARNESS_ASSUME(k <= LEMMA_K);
+        BUILD_SRC(src, k, len)
+        BUILD_DST(dst, scratch, rows, len)
+        int perm[LEMMA_K];
+        for (int t = 0; t < LEMMA_K; t++) {
+                HARNESS_ASSUME(0 <= perm[t] && perm[t] < LEMMA_K && (t >= k || perm[t] < k));
+                for (int u = 0; u < t; u++)
+                        HARNESS_ASSUME(perm[u] != perm[t]);
+        }
+        HARNESS_ASSUME(dst[g_l][g_i] == 0);
+        for (int t = 0; t < LEMMA_K; t++)
+                if (t < k)
+                        ec_encode_data_update_base(len, k, rows, perm[t], v, src[perm[t]], dst);
+        unsigned char fold = 0;
+        for (int j = 0; j < LEMMA_K; j++)
+                if (j < k)
+                        fold ^= EC_TERM(src[j][g_i], v, g_l, k, j);
+        __CPROVER_assert(dst[g_l][g_i] == fold, "k updates in any order == full encode (C03 fold)");
+        VCANARY();
+}
